@@ -26,6 +26,20 @@ def run(ck: Checker):
     fifo.check_fifo_class(ck, 'C16-1d', m)
     run_siblings(ck)
     run_async_pairs(ck)
+    ck.rule('C16-6', "timeouts surface the same way in the async server as in the sync one: handlers around asyncio.wait_for / Future.result(timeout) catch the class the standard library raises (not only mpservice's re-bound subclass)", minimum=2)
+    from . import server
+    from .common import check_std_timeout_handlers
+
+    for name in server.SERVERS:
+        s = server.discover(ck.repo, name)
+        check_std_timeout_handlers(ck, 'C16-6', [m for m in s.cls.methods() if m.name in ('_enqueue', '_wait_for_result', '__aenter__', '__aexit__')])
+    # a server object used for a second session behaves like the first time (the sync server does): per-run objects --
+    # the asyncio.Condition binds to the event loop it is first used in -- are created on entry, not in the constructor
+    from . import c11
+    from .common import SERVLET
+
+    with ck.as_rule('C16-7', 're-entry: per-run state (the admission condition, queues, notification tables) is created when the server is entered, not in __init__ (the C11-5 obligations); an asyncio.Condition made in the constructor fails in the second event loop where the sync server works', minimum=7):
+        c11.check_reenter(ck, 'C11-5', ck.repo.module(SERVLET))
     # C16-4: AsyncServer.call/stream = Server.call/stream: the async server's admission and gather code are
     # instances of the same rules that are decided for the sync server under C02 / C04 / C06 / C07
     from . import server
